@@ -236,24 +236,11 @@ def showReq (r : Req) : String := (if r.tls then "https://" else "http://") ++ s
 def showRoutes (rs : List (Req × Str)) : String :=
   if rs.isEmpty then "-" else ",".intercalate (rs.map fun (r, a) => showReq r ++ ">" ++ str a)
 
-/-- the model's routes for the given requests, for an iteration order that reproduces the
-implementation's answers if there is one (Go map iteration is arbitrary), per frontend -/
+/-- the model's routes for the given requests (`Sync.routeS`: hostnames iterated in sorted order) -/
 def modelRoutes (c : Cfg) (reqs : List (Req × Str)) : List (Req × Str) × Bool :=
-  let dfl := mapFiles (dfltPaths c) (hostsOfPaths (dfltPaths c))
-  let side (tls : Bool) : List (Req × Str) × Bool :=
-    let rs := reqs.filter (·.1.tls = tls)
-    let l := if tls then httpsPaths c else httpPaths c
-    let cands := (perms (hostsOfPaths l)).take 720
-    let run (π : List Str) : List (Req × Str) :=
-      let fs := mapFiles l π
-      let m : Maps := if tls then ⟨[], fs, dfl⟩ else ⟨fs, [], dfl⟩
-      rs.map fun (r, _) => (r, routeM c m r)
-    match cands.find? (fun π => run π = rs) with
-    | some π => (run π, true)
-    | none => (run (hostsOfPaths l), false)
-  let (a, oka) := side false
-  let (b, okb) := side true
-  (a ++ b, oka && okb)
+  let m := buildMaps c c.iterSorted
+  let run (tls : Bool) : List (Req × Str) := (reqs.filter (·.1.tls = tls)).map fun (r, _) => (r, routeM c m r)
+  (run false ++ run true, true)
 
 def handleWorld (toks : List String) (impl : String) : Verdict :=
   match worldOf toks with
